@@ -96,6 +96,11 @@ PROPS.update({
 GEN_DERIVE = [["python3", "tools/gen_derive.py"]]
 PROPS["C13"]["pre"] = GEN_DERIVE
 PROPS["C07"]["pre"] = GEN_DERIVE
+PROPS["C07"]["runs"].append(dict(features=["c07"], cfg="std", jobs=8, filters={"quick": ["c07q_iow"], "thorough": ["c07q_iow", "c07t_iow", "c07q_ent_vec_opt_2", "c07q_ent_u32", "c07q_ent_string_2", "c07q_bulk_enc_u16"]}))
+PROPS["C16"]["pre"] = GEN_DERIVE
+PROPS["C01"]["pre"] = GEN_DERIVE
+PROPS["C02"]["pre"] = GEN_DERIVE
+PROPS["C03"]["pre"] = GEN_DERIVE
 PROPS.update({
     "C05": simple(5, pre=GEN_DERIVE,
         bounds="generated family G (tools/gen_derive.py: ~40 definitions quick, ~53 thorough; shapes unit/tuple/named x 0..4 fields x {none, skip, compact, encoded_as} x field types x enums with index attribute / discriminant / position / skip incl. all-variants-skipped, repr(transparent), single-field forwarders) plus hand-written generic / CompactAs / nested members; every definition decided over ALL its values (encode, round trip) and ALL byte strings up to max length + 1 (decode; the index byte ranges over all 256 values)",
@@ -110,7 +115,7 @@ PROPS.update({
         outside="counts/lengths beyond the shapes; allocation alignment (not modelled by Kani); payloads of 64 KiB",
         explanation="std's allocation entry points are replaced (-Z stubbing) by stateless versions asserting size <= allowance and delegating to Kani's allocator model, so EVERY heap request made while decoding is checked; self-tests and a negative twin prove the assertion is live; no-stub twins guard against stub artefacts.",
         assumptions=["stubs: alloc::alloc::{alloc, alloc_zeroed, realloc, realloc_nonnull} -> allowance-asserting versions delegating to __rust_alloc/__rust_alloc_zeroed/__rust_realloc"]),
-    "C10": simple(10,
+    "C10": dict(runs=std_runs(10, stubbing=True),
         bounds="[T;N] N<=4, Box<T>, Box<[T;3]>, Rc/Arc<[T;2]>, Vec (<=3), VecDeque, tuples, nested arrays, Vec of arrays, derived struct/enum, repr(transparent) newtypes (array, boxed): symbolic failing element x symbolic truncation; LinkedList/BTreeMap/BTreeSet (<=2): concrete failing index and length, enumerated; failure kinds: input exhausted, malformed element, depth-limit and mem-limit errors (symbolic limits)",
         outside="panic in an element decoder (Kani models panic as abort: unwinding is not executed); N up to 40 (same loop body)",
         explanation="ledger element type: every construction and drop is recorded and asserted (built exactly once, dropped exactly once, nothing leaked), while CBMC checks double free / use of dead objects / dealloc layout on every pointer operation of the real decode paths (Box::decode_wrapped raw alloc, array State guard, repr(transparent) casts)."),
@@ -118,7 +123,7 @@ PROPS.update({
         bounds="all byte strings up to the listed lengths x symbolic limit 0..=8 for Box/Rc/Arc nests to depth 3, Vec/VecDeque/LinkedList/BTreeMap/BTreeSet/BinaryHeap with <= 2 elements, siblings (tuple, array), recursive derived Tree (<= 6 bytes) and List; one inductive step of the real depth tracker from an ARBITRARY (depth, max) state and decode-from-any-state == fresh decode with budget max-depth (source hook)",
         outside="recursion through Vec<Self> (times out at 3 bytes); actual stack consumption on 10^6-deep input (no stack model): decided only in the proxy form 'recursion is cut at depth max+1'",
         explanation="r1 = decode_with_depth_limit(lim) vs r0 = decode on the same bytes: r1 Ok => equal; r0 Err => r1 Err; r0 Ok(v) => (r1 Ok <=> lim >= model depth(v)), which is also monotonicity."),
-    "C12": simple(12,
+    "C12": dict(runs=std_runs(12, stubbing=True),
         bounds="tracker arithmetic for 3 announcements of arbitrary usize sizes under an arbitrary limit (inductive step from any state); threshold on all byte strings of the listed lengths x limit over ALL usize for Box/Rc/Arc, Vec (bulk and element path), VecDeque, String, LinkedList, BTreeMap/Set (1-2 entries), tuples; hook arguments for EVERY count in u32 (decode aborted at the first announcement)",
         outside="values larger than the shapes; derived types beyond the generated family",
         explanation="U = usage recorded by a logging input on the unlimited decode; decode_with_mem_limit(L): Ok => same value; fails only if L <= U; succeeds if L > U; U >= model heap bytes of the value; U == 0 for heap-free values."),
@@ -154,6 +159,8 @@ PROPS["C20"] = dict(
     outside="fuzz/arbitrary feature (adds derives on Compact only), `full` (no-op), serde (not on the wire path)",
     explanation="By transitivity through the configuration-independent reference model: for all v: enc_X(v) == spec(v) in every configuration X gives enc_X == enc_Y, and likewise accept/reject and decoded values. Only is_ok()/is_err() of errors is compared, never their descriptions.",
 )
+
+PROPS["C20"]["pre"] = GEN_DERIVE
 
 HOOK_COMMITS = ["9ece5a5"]
 NOT_APPLICABLE = {}
